@@ -514,7 +514,7 @@ func staleRenewal(L time.Duration, n int32) (sig, what string, stall time.Durati
 func TestCheck(t *testing.T) {
 	run := report.New(prop, "fault_enumeration")
 	defer run.Finish(t)
-	run.Rule("controlled: scenarios of 2-5 workers (distinct Lockers of 1-3 providers and goroutines sharing a Locker) running programs over {Lock, TryLock, LockWithCtx} inside a synctest bubble; every kvs.Storage call of the lock code is a gate, the scheduler picks one enabled action per step (release a gate normally / as 'request lost' / as 'reply lost' with up to 2 faults, cancel an attempt before or during the call, leave a critical section, expire an ownerless record) - random and PCT schedules plus exhaustive DFS of 27 two-worker configurations with <=1 fault; monitor: number of callers between acquisition return and Unlock call never exceeds 1. take-over: on the real clock with a 300/400 ms lease (hook) a caller waits 1.25-2 leases behind a holder, takes over and holds for 3 leases against a TryLock-spinning third Locker (canary-guarded); stale renewal: the answer of the previous holder's n-th renewal arrives after it unlocked and another caller acquired. unlock vs failed renewal: A's renewal is answered with an error (request lost) while A is unlocking, then B acquires and a third Locker spins. A's Unlock loses its Delete (reply or request), B acquires, A tries the same Locker again. tenures during which the holder's provider is shut down or single renewal requests (1st..7th, pairs, triples) are lost, against a spinning Locker. far timers (own processes): a short-lease tenure taken while a lock of another name with a 30 s lease and a foreign timer 20 s ahead are pending in the process. slow storage (own processes): the holder's storage answers every renewal slowly but inside half a lease (a caller whose context ends meanwhile gets the context's error), 4 leases against a spinning Locker. hand-off storm (own process): goroutines sharing one Locker hand the lock over 150 000 (3 000 000) times; a holder found without a pending lease timer right after a hand-off (hook), or the last one, keeps the lock for two leases against another provider's Locker. free-running: same monitor under real scheduling with the race detector on inmem and Redis(miniredis). distinct = distinct (configuration, action trace) pairs executed in the controlled part")
+	run.Rule("controlled: scenarios of 2-5 workers (distinct Lockers of 1-3 providers and goroutines sharing a Locker) running programs over {Lock, TryLock, LockWithCtx} inside a synctest bubble; every kvs.Storage call of the lock code is a gate, the scheduler picks one enabled action per step (release a gate normally / as 'request lost' / as 'reply lost' with up to 2 faults, cancel an attempt before or during the call, leave a critical section, expire an ownerless record) - random and PCT schedules plus exhaustive DFS of 27 two-worker configurations with <=1 fault; monitor: number of callers between acquisition return and Unlock call never exceeds 1. take-over: on the real clock with a 300/400 ms lease (hook) a caller waits 1.25-2 leases behind a holder, takes over and holds for 3 leases against a TryLock-spinning third Locker (canary-guarded); stale renewal: the answer of the previous holder's n-th renewal arrives after it unlocked and another caller acquired. unlock vs failed renewal: A's renewal is answered with an error (request lost) while A is unlocking, then B acquires and a third Locker spins. A's Unlock loses its Delete (reply or request), B acquires, A tries the same Locker again. tenures during which the holder's provider is shut down or single renewal requests (1st..7th, pairs, triples) are lost, against a spinning Locker. far timers (own processes): a short-lease tenure taken while a lock of another name with a 30 s lease and a foreign timer 20 s ahead are pending in the process. slow storage (own processes): the holder's storage answers every renewal slowly but inside half a lease (a caller whose context ends meanwhile gets the context's error), 4 leases against a spinning Locker. hand-off storm (own process): goroutines sharing one Locker hand the lock over 150 000 (3 000 000) times; a holder found without a pending lease timer right after a hand-off (hook), or the last one, keeps the lock for two leases against another provider's Locker. free-running (also repeated by a second pass built without the race detector): same monitor under real scheduling with the race detector on inmem and Redis(miniredis). distinct = distinct (configuration, action trace) pairs executed in the controlled part")
 	run.Assume("controlled part: frozen virtual time, so leases never expire under a live holder (the property's premise); storage operations are atomic steps there - their internal atomicity is what the free-running part and C02 look at")
 	run.Assume("an ownerless lock record (left by an injected lost reply / lost Delete) disappears only through the explicit 'expire' action, which models lease expiry")
 
@@ -522,201 +522,205 @@ func TestCheck(t *testing.T) {
 		locksim.Replay(t, run, p, mine)
 		return
 	}
-	nsh := runtime.NumCPU()
-	// a child of the quick tier needs seconds; one that does not finish (e.g. a timer goroutine spinning at an
-	// instant of the frozen clock) is given up after 150 s (inconclusive for its part) so that the rest still runs
-	childLimit := time.Duration(run.Pick(150, 2700)) * time.Second
-	shard.Run(run, "TestChild", "random", nsh, childLimit)
-	shard.Run(run, "TestChild", "dfs", nsh, childLimit)
-	var swg sync.WaitGroup
-	swg.Add(1)
-	go func() { // hand-off storms, one process each (they run beside everything below)
-		defer swg.Done()
-		for c := range shard.Run(run, "TestChildStorm", "storm", run.Pick(4, 8), 30*time.Minute, "VERIF_TIER="+map[bool]string{true: "thorough", false: "quick"}[run.Thorough()]) {
-			run.DistinctStr(c)
-		}
-	}()
-	swg.Add(1)
-	go func() { // tenures beside far timers, one process each
-		defer swg.Done()
-		for c := range shard.Run(run, "TestChildStorm", "mixed", 2, 30*time.Minute) {
-			run.DistinctStr(c)
-		}
-	}()
-	swg.Add(1)
-	go func() { // slow-storage tenures, one process each
-		defer swg.Done()
-		for c := range shard.Run(run, "TestChildStorm", "slow", 3, 30*time.Minute) {
-			run.DistinctStr(c)
-		}
-	}()
-	defer swg.Wait()
+	// the second pass (VERIF_PASS=norace: built without the race detector, i.e. with different timing) repeats the
+	// free-running part only
+	if os.Getenv("VERIF_PASS") != "norace" {
+		nsh := runtime.NumCPU()
+		// a child of the quick tier needs seconds; one that does not finish (e.g. a timer goroutine spinning at an
+		// instant of the frozen clock) is given up after 150 s (inconclusive for its part) so that the rest still runs
+		childLimit := time.Duration(run.Pick(150, 2700)) * time.Second
+		shard.Run(run, "TestChild", "random", nsh, childLimit)
+		shard.Run(run, "TestChild", "dfs", nsh, childLimit)
+		var swg sync.WaitGroup
+		swg.Add(1)
+		go func() { // hand-off storms, one process each (they run beside everything below)
+			defer swg.Done()
+			for c := range shard.Run(run, "TestChildStorm", "storm", run.Pick(4, 8), 30*time.Minute, "VERIF_TIER="+map[bool]string{true: "thorough", false: "quick"}[run.Thorough()]) {
+				run.DistinctStr(c)
+			}
+		}()
+		swg.Add(1)
+		go func() { // tenures beside far timers, one process each
+			defer swg.Done()
+			for c := range shard.Run(run, "TestChildStorm", "mixed", 2, 30*time.Minute) {
+				run.DistinctStr(c)
+			}
+		}()
+		swg.Add(1)
+		go func() { // slow-storage tenures, one process each
+			defer swg.Done()
+			for c := range shard.Run(run, "TestChildStorm", "slow", 3, 30*time.Minute) {
+				run.DistinctStr(c)
+			}
+		}()
+		defer swg.Wait()
 
-	// take-over scenarios on the real clock (they mostly sleep; run beside the free-running part)
-	var twg sync.WaitGroup
-	for i := 0; i < run.Pick(8, 40); i++ {
-		twg.Add(1)
-		go func(i int) {
-			defer twg.Done()
-			L := []time.Duration{400 * time.Millisecond, 300 * time.Millisecond}[i%2]
-			hold := L*time.Duration(3+i%4)/4 + L/2 // 1.25 L .. 2 L: longer than half a lease, around a whole one
-			for attempt := 1; ; attempt++ {
-				sig, what, stall := takeover(L, hold, i%3 == 0)
-				run.Max("canary_worst_stall_us", int64(stall/time.Microsecond))
-				if sig != "" && stall > L/8 {
-					if attempt < 3 {
-						run.Add("takeover_repeated_because_of_a_stall", 1)
-						continue
+		// take-over scenarios on the real clock (they mostly sleep; run beside the free-running part)
+		var twg sync.WaitGroup
+		for i := 0; i < run.Pick(8, 40); i++ {
+			twg.Add(1)
+			go func(i int) {
+				defer twg.Done()
+				L := []time.Duration{400 * time.Millisecond, 300 * time.Millisecond}[i%2]
+				hold := L*time.Duration(3+i%4)/4 + L/2 // 1.25 L .. 2 L: longer than half a lease, around a whole one
+				for attempt := 1; ; attempt++ {
+					sig, what, stall := takeover(L, hold, i%3 == 0)
+					run.Max("canary_worst_stall_us", int64(stall/time.Microsecond))
+					if sig != "" && stall > L/8 {
+						if attempt < 3 {
+							run.Add("takeover_repeated_because_of_a_stall", 1)
+							continue
+						}
+						run.Inconclusive(fmt.Sprintf("take-over scenario: %s (canary stall %v)", what, stall))
+						return
 					}
-					run.Inconclusive(fmt.Sprintf("take-over scenario: %s (canary stall %v)", what, stall))
-					return
-				}
-				run.Eval(1)
-				run.Add("takeover_scenarios", 1)
-				run.DistinctStr(fmt.Sprint("takeover", L, hold, i%3 == 0))
-				if sig != "" {
-					run.Violation(sig, what, map[string]any{"mode": "takeover", "lease": L.String(), "first_hold": hold.String(), "with_ctx": i%3 == 0})
-				}
-				return
-			}
-		}(i)
-	}
-	for i := 0; i < run.Pick(6, 24); i++ {
-		twg.Add(1)
-		go func(i int) {
-			defer twg.Done()
-			L := []time.Duration{400 * time.Millisecond, 300 * time.Millisecond}[i%2]
-			n := int32(1 + i%3)
-			for attempt := 1; ; attempt++ {
-				sig, what, stall := staleRenewal(L, n)
-				run.Max("canary_worst_stall_us", int64(stall/time.Microsecond))
-				if sig != "" && stall > L/8 {
-					if attempt < 3 {
-						run.Add("takeover_repeated_because_of_a_stall", 1)
-						continue
+					run.Eval(1)
+					run.Add("takeover_scenarios", 1)
+					run.DistinctStr(fmt.Sprint("takeover", L, hold, i%3 == 0))
+					if sig != "" {
+						run.Violation(sig, what, map[string]any{"mode": "takeover", "lease": L.String(), "first_hold": hold.String(), "with_ctx": i%3 == 0})
 					}
-					run.Inconclusive(fmt.Sprintf("stale-renewal scenario: %s (canary stall %v)", what, stall))
 					return
 				}
-				run.Eval(1)
-				run.Add("stale_renewal_scenarios", 1)
-				run.DistinctStr(fmt.Sprint("stale-renewal", L, n))
-				if sig != "" {
-					run.Violation(sig, what, map[string]any{"mode": "stale-renewal", "lease": L.String(), "renewal": n})
-				}
-				return
-			}
-		}(i)
-	}
-	for i := 0; i < run.Pick(4, 16); i++ {
-		twg.Add(1)
-		go func(i int) {
-			defer twg.Done()
-			L := []time.Duration{400 * time.Millisecond, 300 * time.Millisecond}[i%2]
-			for attempt := 1; ; attempt++ {
-				o := locktap.UnlockVsFailedRenewal(L, 1+i%2)
-				run.Max("canary_worst_stall_us", int64(o.Stall/time.Microsecond))
-				if o.Skipped != "" {
-					run.Add("unlock_vs_failed_renewal_skipped", 1)
-					return
-				}
-				if o.Sig != "" && o.Stall > L/8 {
-					if attempt < 3 {
-						run.Add("takeover_repeated_because_of_a_stall", 1)
-						continue
+			}(i)
+		}
+		for i := 0; i < run.Pick(6, 24); i++ {
+			twg.Add(1)
+			go func(i int) {
+				defer twg.Done()
+				L := []time.Duration{400 * time.Millisecond, 300 * time.Millisecond}[i%2]
+				n := int32(1 + i%3)
+				for attempt := 1; ; attempt++ {
+					sig, what, stall := staleRenewal(L, n)
+					run.Max("canary_worst_stall_us", int64(stall/time.Microsecond))
+					if sig != "" && stall > L/8 {
+						if attempt < 3 {
+							run.Add("takeover_repeated_because_of_a_stall", 1)
+							continue
+						}
+						run.Inconclusive(fmt.Sprintf("stale-renewal scenario: %s (canary stall %v)", what, stall))
+						return
 					}
-					run.Inconclusive(fmt.Sprintf("unlock-vs-failed-renewal: %s (canary stall %v)", o.What, o.Stall))
+					run.Eval(1)
+					run.Add("stale_renewal_scenarios", 1)
+					run.DistinctStr(fmt.Sprint("stale-renewal", L, n))
+					if sig != "" {
+						run.Violation(sig, what, map[string]any{"mode": "stale-renewal", "lease": L.String(), "renewal": n})
+					}
 					return
 				}
+			}(i)
+		}
+		for i := 0; i < run.Pick(4, 16); i++ {
+			twg.Add(1)
+			go func(i int) {
+				defer twg.Done()
+				L := []time.Duration{400 * time.Millisecond, 300 * time.Millisecond}[i%2]
+				for attempt := 1; ; attempt++ {
+					o := locktap.UnlockVsFailedRenewal(L, 1+i%2)
+					run.Max("canary_worst_stall_us", int64(o.Stall/time.Microsecond))
+					if o.Skipped != "" {
+						run.Add("unlock_vs_failed_renewal_skipped", 1)
+						return
+					}
+					if o.Sig != "" && o.Stall > L/8 {
+						if attempt < 3 {
+							run.Add("takeover_repeated_because_of_a_stall", 1)
+							continue
+						}
+						run.Inconclusive(fmt.Sprintf("unlock-vs-failed-renewal: %s (canary stall %v)", o.What, o.Stall))
+						return
+					}
+					run.Eval(1)
+					run.Add("unlock_vs_failed_renewal_scenarios", 1)
+					run.DistinctStr(fmt.Sprint("unlock-vs-failed-renewal", L, 1+i%2))
+					if o.Sig != "" {
+						run.Violation("lock/two-holders", "real clock: "+o.What, map[string]any{"mode": "unlock-vs-failed-renewal", "lease": L.String(), "renewal": 1 + i%2})
+					}
+					return
+				}
+			}(i)
+		}
+		// A's Unlock loses its Delete (reply / request), B acquires, A tries its Locker again (logical verdict)
+		for i := 0; i < 4; i++ {
+			twg.Add(1)
+			go func(i int) {
+				defer twg.Done()
+				L := []time.Duration{300 * time.Millisecond, 400 * time.Millisecond}[i/2]
+				o := locktap.UnlockFaultThenRelock(L, i%2 == 0)
 				run.Eval(1)
-				run.Add("unlock_vs_failed_renewal_scenarios", 1)
-				run.DistinctStr(fmt.Sprint("unlock-vs-failed-renewal", L, 1+i%2))
+				run.Add("unlock_fault_then_relock_scenarios", 1)
+				run.DistinctStr(fmt.Sprint("unlock-fault-then-relock", L, i%2 == 0))
 				if o.Sig != "" {
-					run.Violation("lock/two-holders", "real clock: "+o.What, map[string]any{"mode": "unlock-vs-failed-renewal", "lease": L.String(), "renewal": 1 + i%2})
+					run.Violation("lock/two-holders", "real clock: "+o.What, map[string]any{"mode": "unlock-fault-then-relock", "lease": L.String(), "reply_lost": i%2 == 0})
 				}
-				return
-			}
-		}(i)
-	}
-	// A's Unlock loses its Delete (reply / request), B acquires, A tries its Locker again (logical verdict)
-	for i := 0; i < 4; i++ {
-		twg.Add(1)
-		go func(i int) {
-			defer twg.Done()
-			L := []time.Duration{300 * time.Millisecond, 400 * time.Millisecond}[i/2]
-			o := locktap.UnlockFaultThenRelock(L, i%2 == 0)
-			run.Eval(1)
-			run.Add("unlock_fault_then_relock_scenarios", 1)
-			run.DistinctStr(fmt.Sprint("unlock-fault-then-relock", L, i%2 == 0))
-			if o.Sig != "" {
-				run.Violation("lock/two-holders", "real clock: "+o.What, map[string]any{"mode": "unlock-fault-then-relock", "lease": L.String(), "reply_lost": i%2 == 0})
-			}
-		}(i)
-	}
-	// the holder's provider is shut down during the tenure; renewal requests of a tenure are lost
-	for i := 0; i < run.Pick(6, 14); i++ {
-		twg.Add(1)
-		go func(i int) {
-			defer twg.Done()
-			L := []time.Duration{400 * time.Millisecond, 300 * time.Millisecond}[i%2]
-			kss := [][]int{nil, {1}, {2}, {3}, {2, 4}, {4}, {1, 2}, {5}, {3, 6}, {2, 3}, {6}, {1, 3, 5}, {7}, {4, 5}}
-			for attempt := 1; ; attempt++ {
-				var o locktap.Outcome
-				mode := "shutdown-while-held"
-				if ks := kss[i%len(kss)]; ks == nil {
-					o = locktap.ShutdownWhileHeld(L)
-				} else {
-					mode = fmt.Sprint("lost-renewal-requests", ks)
-					o = locktap.FailedRenewalTenure(L, ks)
-				}
-				run.Max("canary_worst_stall_us", int64(o.Stall/time.Microsecond))
-				if o.Sig != "" && o.Stall > L/8 {
-					if attempt < 3 {
-						run.Add("takeover_repeated_because_of_a_stall", 1)
-						continue
+			}(i)
+		}
+		// the holder's provider is shut down during the tenure; renewal requests of a tenure are lost
+		for i := 0; i < run.Pick(6, 14); i++ {
+			twg.Add(1)
+			go func(i int) {
+				defer twg.Done()
+				L := []time.Duration{400 * time.Millisecond, 300 * time.Millisecond}[i%2]
+				kss := [][]int{nil, {1}, {2}, {3}, {2, 4}, {4}, {1, 2}, {5}, {3, 6}, {2, 3}, {6}, {1, 3, 5}, {7}, {4, 5}}
+				for attempt := 1; ; attempt++ {
+					var o locktap.Outcome
+					mode := "shutdown-while-held"
+					if ks := kss[i%len(kss)]; ks == nil {
+						o = locktap.ShutdownWhileHeld(L)
+					} else {
+						mode = fmt.Sprint("lost-renewal-requests", ks)
+						o = locktap.FailedRenewalTenure(L, ks)
 					}
-					run.Inconclusive(fmt.Sprintf("%s: %s (canary stall %v)", mode, o.What, o.Stall))
+					run.Max("canary_worst_stall_us", int64(o.Stall/time.Microsecond))
+					if o.Sig != "" && o.Stall > L/8 {
+						if attempt < 3 {
+							run.Add("takeover_repeated_because_of_a_stall", 1)
+							continue
+						}
+						run.Inconclusive(fmt.Sprintf("%s: %s (canary stall %v)", mode, o.What, o.Stall))
+						return
+					}
+					run.Eval(1)
+					run.Add("tenure_with_shutdown_or_lost_renewals_scenarios", 1)
+					run.DistinctStr(fmt.Sprint(mode, L))
+					if o.Sig != "" {
+						run.Violation("lock/two-holders", "real clock: "+o.What, map[string]any{"mode": mode, "lease": L.String()})
+					}
 					return
 				}
-				run.Eval(1)
-				run.Add("tenure_with_shutdown_or_lost_renewals_scenarios", 1)
-				run.DistinctStr(fmt.Sprint(mode, L))
-				if o.Sig != "" {
-					run.Violation("lock/two-holders", "real clock: "+o.What, map[string]any{"mode": mode, "lease": L.String()})
-				}
-				return
-			}
-		}(i)
-	}
-	// failed attempts of sibling goroutines on the holder's own Locker (real clock, short lease)
-	for i := 0; i < run.Pick(3, 12); i++ {
-		twg.Add(1)
-		go func(i int) {
-			defer twg.Done()
-			L := []time.Duration{400 * time.Millisecond, 300 * time.Millisecond, 600 * time.Millisecond}[i%3]
-			for attempt := 1; ; attempt++ {
-				o := locktap.SiblingAttemptVsHolder(L)
-				run.Max("canary_worst_stall_us", int64(o.Stall/time.Microsecond))
-				if o.Sig != "" && o.TimeBound && o.Stall > L/8 {
-					if attempt < 3 {
-						run.Add("takeover_repeated_because_of_a_stall", 1)
-						continue
+			}(i)
+		}
+		// failed attempts of sibling goroutines on the holder's own Locker (real clock, short lease)
+		for i := 0; i < run.Pick(3, 12); i++ {
+			twg.Add(1)
+			go func(i int) {
+				defer twg.Done()
+				L := []time.Duration{400 * time.Millisecond, 300 * time.Millisecond, 600 * time.Millisecond}[i%3]
+				for attempt := 1; ; attempt++ {
+					o := locktap.SiblingAttemptVsHolder(L)
+					run.Max("canary_worst_stall_us", int64(o.Stall/time.Microsecond))
+					if o.Sig != "" && o.TimeBound && o.Stall > L/8 {
+						if attempt < 3 {
+							run.Add("takeover_repeated_because_of_a_stall", 1)
+							continue
+						}
+						run.Inconclusive(fmt.Sprintf("sibling-attempt-vs-holder: %s (canary stall %v)", o.What, o.Stall))
+						return
 					}
-					run.Inconclusive(fmt.Sprintf("sibling-attempt-vs-holder: %s (canary stall %v)", o.What, o.Stall))
+					run.Eval(1)
+					run.Add("sibling_attempt_vs_holder_scenarios", 1)
+					run.DistinctStr(fmt.Sprint("sibling-attempt-vs-holder", L))
+					if o.Sig != "" {
+						run.Violation("lock/two-holders", "real clock: "+o.What, map[string]any{"mode": "sibling-attempt-vs-holder", "lease": L.String()})
+					}
 					return
 				}
-				run.Eval(1)
-				run.Add("sibling_attempt_vs_holder_scenarios", 1)
-				run.DistinctStr(fmt.Sprint("sibling-attempt-vs-holder", L))
-				if o.Sig != "" {
-					run.Violation("lock/two-holders", "real clock: "+o.What, map[string]any{"mode": "sibling-attempt-vs-holder", "lease": L.String()})
-				}
-				return
-			}
-		}(i)
-	}
-	defer twg.Wait()
+			}(i)
+		}
+		defer twg.Wait()
 
+	}
 	// free-running
 	rounds := run.Pick(200, 6000)
 	var wg sync.WaitGroup
@@ -752,6 +756,7 @@ func TestCheck(t *testing.T) {
 				}
 				run.Eval(1)
 				run.Add("free_rounds_"+cfg.Backend, 1)
+				run.DistinctStr(fmt.Sprintf("free|%s|%d|%d|%d|%d", cfg.Backend, cfg.Providers, cfg.Lockers, cfg.Workers, cfg.Seed))
 				if sig, what := freeRound(cfg, inner, run); sig != "" {
 					run.Violation(sig, what, map[string]any{"mode": "free", "config": cfg})
 				}
